@@ -172,4 +172,117 @@ theorem splitFloat_spec (x : Rat) :
       refine ⟨k, by ring, by ring, ?_⟩
       rw [abs_le]; constructor <;> linarith
 
+/-! ### `min(...)`, `max(...)` of a non-empty list -/
+
+theorem minL_le (x : Rat) (l : List Rat) : minL x l ≤ x ∧ ∀ y ∈ l, minL x l ≤ y := by
+  induction l generalizing x with
+  | nil => simp [minL]
+  | cons y ys ih =>
+    simp only [minL]
+    obtain ⟨h1, h2⟩ := ih (min x y)
+    refine ⟨h1.trans (min_le_left _ _), ?_⟩
+    intro z hz
+    rcases List.mem_cons.mp hz with rfl | hz
+    · exact h1.trans (min_le_right _ _)
+    · exact h2 z hz
+
+theorem minL_mem (x : Rat) (l : List Rat) : minL x l = x ∨ minL x l ∈ l := by
+  induction l generalizing x with
+  | nil => simp [minL]
+  | cons y ys ih =>
+    simp only [minL]
+    rcases ih (min x y) with h | h
+    · rcases min_choice x y with e | e
+      · left; rw [h, e]
+      · right; rw [h, e]; exact List.mem_cons_self ..
+    · right; exact List.mem_cons_of_mem _ h
+
+theorem le_maxL (x : Rat) (l : List Rat) : x ≤ maxL x l ∧ ∀ y ∈ l, y ≤ maxL x l := by
+  induction l generalizing x with
+  | nil => simp [maxL]
+  | cons y ys ih =>
+    simp only [maxL]
+    obtain ⟨h1, h2⟩ := ih (max x y)
+    refine ⟨(le_max_left _ _).trans h1, ?_⟩
+    intro z hz
+    rcases List.mem_cons.mp hz with rfl | hz
+    · exact (le_max_right _ _).trans h1
+    · exact h2 z hz
+
+theorem maxL_mem (x : Rat) (l : List Rat) : maxL x l = x ∨ maxL x l ∈ l := by
+  induction l generalizing x with
+  | nil => simp [maxL]
+  | cons y ys ih =>
+    simp only [maxL]
+    rcases ih (max x y) with h | h
+    · rcases max_choice x y with e | e
+      · left; rw [h, e]
+      · right; rw [h, e]; exact List.mem_cons_self ..
+    · right; exact List.mem_cons_of_mem _ h
+
+/-! ### a linear form on an interval is bounded by its values at the end points -/
+
+theorem lin_lower (a l r x : Rat) (h1 : l ≤ x) (h2 : x ≤ r) : a * l ≤ a * x ∨ a * r ≤ a * x := by
+  rcases le_total 0 a with h | h
+  · left; exact mul_le_mul_of_nonneg_left h1 h
+  · right; exact mul_le_mul_of_nonpos_left h2 h
+
+theorem lin_upper (a l r x : Rat) (h1 : l ≤ x) (h2 : x ≤ r) : a * x ≤ a * l ∨ a * x ≤ a * r := by
+  rcases le_total 0 a with h | h
+  · right; exact mul_le_mul_of_nonneg_left h2 h
+  · left; exact mul_le_mul_of_nonpos_left h1 h
+
+/-! ### one axis of `enclosing`: `floor(min) .. max(1, ceil(max) - floor(min))` -/
+
+theorem axis_enclose (v : Rat) (vs : List Rat) :
+    1 ≤ max 1 ((maxL v vs).ceil - (minL v vs).floor) ∧
+    (∀ y ∈ v :: vs, ((minL v vs).floor : Rat) ≤ y ∧
+        y ≤ ((minL v vs).floor : Rat) + ((max 1 ((maxL v vs).ceil - (minL v vs).floor) : Int) : Rat)) ∧
+    (∃ y ∈ v :: vs, y - ((minL v vs).floor : Rat) < 1) ∧
+    ((∃ y ∈ v :: vs, ((minL v vs).floor : Rat) + ((max 1 ((maxL v vs).ceil - (minL v vs).floor) : Int) : Rat) - y < 1) ∨
+     (max 1 ((maxL v vs).ceil - (minL v vs).floor) = 1 ∧ ∀ y ∈ v :: vs, y = ((minL v vs).floor : Rat))) := by
+  obtain ⟨mn0, mn1⟩ := minL_le v vs
+  obtain ⟨mx0, mx1⟩ := le_maxL v vs
+  have hmin : ∀ y ∈ v :: vs, minL v vs ≤ y := by
+    intro y hy; rcases List.mem_cons.mp hy with rfl | hy
+    · exact mn0
+    · exact mn1 y hy
+  have hmax : ∀ y ∈ v :: vs, y ≤ maxL v vs := by
+    intro y hy; rcases List.mem_cons.mp hy with rfl | hy
+    · exact mx0
+    · exact mx1 y hy
+  have hminmem : minL v vs ∈ v :: vs := by
+    rcases minL_mem v vs with h | h
+    · rw [h]; exact List.mem_cons_self ..
+    · exact List.mem_cons_of_mem _ h
+  have hmaxmem : maxL v vs ∈ v :: vs := by
+    rcases maxL_mem v vs with h | h
+    · rw [h]; exact List.mem_cons_self ..
+    · exact List.mem_cons_of_mem _ h
+  have f1 := Rat.floor_le (minL v vs)
+  have f2 := Rat.lt_floor_add_one (minL v vs)
+  have c1 := @Rat.le_ceil (maxL v vs)
+  have c2 := @Rat.ceil_lt (maxL v vs)
+  push_cast at f2
+  generalize hlo : (minL v vs).floor = lo at *
+  generalize hhi : (maxL v vs).ceil = hi at *
+  have hn : (((max 1 (hi - lo) : Int)) : Rat) ≥ (hi : Rat) - lo := by
+    have : hi - lo ≤ max 1 (hi - lo) := le_max_right _ _
+    exact_mod_cast this
+  refine ⟨le_max_left _ _, ?_, ⟨_, hminmem, by linarith⟩, ?_⟩
+  · intro y hy
+    have := hmin y hy; have := hmax y hy
+    constructor <;> linarith
+  · by_cases hcase : 1 ≤ hi - lo
+    · left
+      refine ⟨_, hmaxmem, ?_⟩
+      rw [max_eq_right hcase]; push_cast; linarith
+    · right
+      have hle : hi ≤ lo := by omega
+      have hle' : (hi : Rat) ≤ lo := by exact_mod_cast hle
+      refine ⟨max_eq_left (by omega), ?_⟩
+      intro y hy
+      have := hmin y hy; have := hmax y hy
+      linarith
+
 end OdcGeo.C16
